@@ -29,14 +29,14 @@ from .common import cN, cZ, cbool, cbytes, clist, copt, cstr
 
 THEOREMS = [
     "repo_tables_are_the_standard_ones", "b64_roundtrip", "b64_length", "utf8_roundtrip",
-    "credentials_recoverable", "preemptive_credentials_on_the_wire", "no_credentials_no_header",
-    "colon_in_username_not_recoverable", "urlsafe_alphabet_refuted",
-    "body_fidelity", "credentials_keep_encoding", "body_fidelity_on_the_wire", "body_unlabelled_on_the_wire",
-    "header_values_from_caller", "soap_defaults_delivered", "caller_header_delivered",
-    "request_header_delivered", "reply_fidelity", "error_mapping", "status_mapping", "failures_propagate",
-    "nonascii_url_rejected_before_io", "timeout_choice",
-    "cookie_history", "cookie_header_matches_history", "jar_unique", "delivered_replies_update_jar",
-    "error_replies_leave_jar",
+    "credentials_recoverable_partial", "credentials_recoverable_refuted", "preemptive_credentials_on_the_wire",
+    "no_credentials_no_header", "urlsafe_alphabet_refuted",
+    "body_fidelity", "body_fidelity_on_the_wire", "credentials_keep_encoding", "compression_switch",
+    "body_unlabelled_on_the_wire", "soap_defaults_delivered", "caller_header_delivered",
+    "header_values_from_caller", "request_header_delivered", "reply_fidelity", "reply_matches_label",
+    "error_mapping", "status_mapping", "failures_propagate", "nonascii_url_rejected_before_io", "timeout_choice",
+    "cookie_history", "cookie_header_matches_history", "jar_unique", "reply_cookies_stored_partial",
+    "reply_cookies_stored_refuted", "error_replies_leave_jar",
 ]
 
 PRE = "From SV Require Import Lib.Base C15.Base64 C15.Model."
@@ -562,9 +562,17 @@ def gen_caller_headers(rng, via_client, allow_auth):
         hd.insert(rng.randrange(len(hd) + 1),
                   (rng.choice(["SOAPAction", "SOAPAction", "soapaction", "SoapAction"]),
                    rng.choice(['"urn:op"', '""', "plain", '"http://ex.org/é"'])))
-    if rng.random() < 0.35:
-        hd.insert(rng.randrange(len(hd) + 1),
-                  ("Content-Encoding", rng.choice(["gzip", "gzip", "deflate", "deflate", "identity", "br"])))
+    if rng.random() < 0.4:
+        # any spelling of the name and of the coding; sometimes two spellings (the last one counts)
+        names = ["Content-Encoding", "Content-Encoding", "content-encoding", "CONTENT-ENCODING", "Content-encoding",
+                 "cOnTeNt-EnCoDiNg"]
+        vals = ["gzip", "gzip", "deflate", "deflate", "identity", "br", "GZIP", "Gzip", "Deflate", "DEFLATE", "x-gzip",
+                "gZiP"]
+        n1 = rng.choice(names)
+        hd.insert(rng.randrange(len(hd) + 1), (n1, rng.choice(vals)))
+        if rng.random() < 0.2:
+            n2 = rng.choice([n for n in names if n != n1])
+            hd.insert(rng.randrange(len(hd) + 1), (n2, rng.choice(vals)))
     if allow_auth and rng.random() < 0.08:
         hd.append((rng.choice(["Authorization", "authorization"]), ("Bearer " + gen_value(rng)[:20].replace(" ", "").replace("\t", "")).strip()))
     return hd
@@ -621,11 +629,13 @@ def gen_step(rng, via, cookies, challenge, allow_auth, status=None):
     if 200 <= st["status"] < 300 and st["status"] not in NO_BODY_STATUS:
         r = rng.random()
         if r < 0.2:
-            st["ce"], st["body"] = b"gzip", compress_as("gzip", plain)
+            st["ce"], st["body"] = rng.choice([b"gzip", b"gzip", b"GZIP", b"Gzip", b"gZIP"]), compress_as("gzip", plain)
         elif r < 0.4:
-            st["ce"], st["body"] = b"deflate", compress_as("deflate", plain)
+            st["ce"], st["body"] = rng.choice([b"deflate", b"deflate", b"Deflate", b"DEFLATE"]), compress_as("deflate", plain)
         elif r < 0.46 and via is None:
-            st["ce"] = rng.choice([b"identity", b"br"])
+            st["ce"] = rng.choice([b"identity", b"br", b"x-gzip", b"X-GZIP"])
+            if rng.random() < 0.3:
+                st["body"] = compress_as("gzip", plain)     # not a label suds (or the property) decodes: passed on as sent
     if cookies and 200 <= st["status"] < 300 and rng.random() < 0.75:
         st["cookies"] = gen_cookie_events(rng, st["path"])
     return st
@@ -661,18 +671,10 @@ def gen_session(rng, clients_n, status=None, kind=None):
     return {"kind": kind, "user": user, "pw": pw, "steps": steps}
 
 
-# sessions on which only model = implementation is demanded: behaviours whose reading against the
-# property text is debatable (listed in the report), each with the key it would be reported under
-QUIRKS = {
-    "ce-name-or-value-case": "C15:content-encoding-case-sensitive",
-    "reply-ce-value-case": "C15:content-encoding-case-sensitive",
-    "reply-mislabelled": None,
-    "error-reply-sets-cookie": "C15:cookies-of-error-replies-dropped",
-    "error-reply-compressed": None,
-    "colon-in-username": "C15:colon-in-username",
-    "plain-transport-with-credentials": None,
-    "caller-authorization-and-credentials": None,
-}
+# dedicated sessions for corner behaviours (judged like every other session: model AND specification)
+QUIRKS = ["ce-name-or-value-case", "reply-ce-value-case", "reply-mislabelled", "error-reply-sets-cookie",
+          "error-reply-compressed", "colon-in-username", "plain-transport-with-credentials",
+          "caller-authorization-and-credentials"]
 
 
 def gen_quirk(rng, cat, clients_n):
@@ -875,6 +877,34 @@ PART_KEYS = [
 ]
 
 
+def finding_keys(sess, obs, failed):
+    """Finding class of every failed part of a session's specification."""
+    out = []
+    for part in failed:
+        _, key, what = PART_KEYS[part]
+        if part == 3:
+            auth = [v for ob in obs for k, v in ob["headers"] if k.lower() == b"authorization"]
+            if sess["user"] is not None and ":" in sess["user"]:
+                key, what = "C15:colon-in-username", ("username %r contains ':': the server splits the Basic credentials at "
+                                                      "the first colon and recovers another pair" % sess["user"])
+            elif auth and cred_key(auth[-1]) == "C15:urlsafe-base64-credentials":
+                key = "C15:urlsafe-base64-credentials"
+        elif part == 2 and any(not (200 <= st["status"] < 300) and st["cookies"] for st in sess["steps"][:-1]):
+            key, what = "C15:cookies-of-error-replies-dropped", ("a cookie set by an HTTP error reply (3xx-5xx) is not "
+                                                                 "returned with the next request")
+        elif part == 0 and any(k.lower() == "content-encoding" and v.lower() in ("gzip", "deflate")
+                               and (k != "Content-Encoding" or v != v.lower())
+                               for st in sess["steps"] for k, v in st["hdrs"]):
+            key, what = "C15:content-encoding-case-sensitive", ("a Content-Encoding request header in another spelling is "
+                                                                "sent as a label while the body is not compressed")
+        elif part == 4 and any(st["ce"] is not None and st["ce"].lower() in (b"gzip", b"deflate") and st["ce"] != st["ce"].lower()
+                               for st in sess["steps"]):
+            key, what = "C15:content-encoding-case-sensitive", ("a reply labelled gzip/deflate in another case is returned "
+                                                                "still compressed")
+        out.append((key, what))
+    return out
+
+
 def cred_key(header):
     """Finding class of an Authorization value a standard server cannot decode."""
     if header is not None and (b"-" in header[6:] or b"_" in header[6:]):
@@ -899,8 +929,10 @@ def run(ck):
     ck.notes = [
         "partial: sockets, urllib, cookie policy and real timeouts are run-time behaviour; the model states them and "
         "the loopback correspondence checks them, the theorems do not cover the standard library's code",
-        "credentials are recoverable only for usernames without ':' (RFC 7617); usernames with ':' are exercised "
-        "for model agreement only",
+        "credentials are recoverable only for usernames without ':' (RFC 7617): credentials_recoverable_refuted / "
+        "_partial, known finding C15:colon-in-username; cookies set by HTTPError replies are dropped: "
+        "reply_cookies_stored_refuted / _partial, known finding C15:cookies-of-error-replies-dropped",
+        "a caller header 'Authorization' given together with configured credentials is left to the credentials clause",
         "header names the standard library owns (Content-Length, Host, Connection, Transfer-Encoding, Cookie, Expect) "
         "are not generated as caller headers",
         "HTTPS (suds.transport.https over TLS) and proxies are not exercised",
@@ -949,23 +981,28 @@ def run(ck):
     bad = [cmeta[i] for i in res["cred_agrees"] if i not in set(res["cred_spec_ok"])]
     if bad:
         disagree["credentials"] = [(u, p, repr(h)) for u, p, h in bad[:5]]
-    # usernames containing ':' - agreement only
+    # usernames containing ':' (the Basic scheme cannot carry them: known finding C15:colon-in-username)
     qpairs = [(gen_text(rng, colon=False) + ":" + gen_text(rng), gen_text(rng)) for _ in range(200)]
-    qcases = []
+    qcases, qmeta = [], []
     for u, p in qpairs:
         try:
             h = impl_authorization(u, p)
         except Exception:   # noqa
             h = None
         qcases.append("(%s, %s, %s)" % (cstr(u), cstr(p), copt(cbytes(h) if h is not None else None, "bytes")))
+        qmeta.append((u, p, h))
         ck.seen(("cred", u, p))
         ck.count("credentials-colon-in-username")
     resq = ck.run_cases("credq", PRE, "ccase", qcases, ["cred_agrees", "cred_spec_ok"], shard=500)
     if resq["cred_agrees"]:
         disagree["credentials-colon"] = [qpairs[i] for i in resq["cred_agrees"][:5]]
-    debatable = {}
-    if len(resq["cred_spec_ok"]) > 0:
-        debatable["C15:colon-in-username"] = {"count": len(resq["cred_spec_ok"]), "example": list(qpairs[resq["cred_spec_ok"][0]])}
+    for i in resq["cred_spec_ok"]:
+        u, p, h = qmeta[i]
+        ck.failing_input("C15:colon-in-username",
+                         "username %r contains ':': a server splits %r at the first colon and recovers another pair"
+                         % (u, h), {"family": "cred", "user": u, "pw": p, "header": (h or b"").decode("latin-1"),
+                                    "how": "suds.transport.http.HttpAuthenticated(username=user, password=pw)"
+                                           ".addcredentials(request); request.headers['Authorization']"})
 
     lap("credentials")
     # ---- 2. sessions through the loopback server --------------------------------
@@ -988,6 +1025,15 @@ def run(ck):
     else:
         for status in rng.sample(range(200, 600), 60):
             sessions.append(gen_session(rng, len(clients) or 1, status=status))
+    for s in sessions:
+        s["cat"] = None
+    # dedicated sessions for corner behaviours, judged like all others
+    for cat in QUIRKS:
+        for _ in range(40 if thorough else 12):
+            q = gen_quirk(rng, cat, len(clients) or 1)
+            q["cat"] = cat
+            sessions.append(q)
+            ck.count("corner-" + cat)
     if not clients:
         for s in sessions:
             for st in s["steps"]:
@@ -1020,60 +1066,22 @@ def run(ck):
     resx = ck.run_cases("x", PRE, "xcase", xcases, preds, shard=60)
     spec_bad = set(resx["x_spec_ok"])
     for i in sorted(spec_bad):
-        key, what = "C15:exchange", "an exchange does not meet the property"
-        for pname, k, w in PART_KEYS:
-            if i in resx[pname]:
-                key, what = k, w
-                break
         s = sessions[i]
-        if key == "C15:credentials-on-the-wire":
-            auth = [v for ob in xobs[i] for k, v in ob["headers"] if k.lower() == b"authorization"]
-            if auth and cred_key(auth[-1]) == "C15:urlsafe-base64-credentials":
-                key = "C15:urlsafe-base64-credentials"
+        failed = [n for n, (pname, _, _) in enumerate(PART_KEYS) if i in resx[pname]]
         pl = session_payload(s)
+        pl["category"] = s["cat"]
         pl["observed"] = [describe_obs(o) for o in xobs[i]]
-        ck.failing_input(key, "%s (transport %s, %d step(s))" % (what, s["kind"], len(s["steps"])), pl)
+        for key, what in finding_keys(s, xobs[i], failed) or [("C15:exchange", "an exchange does not meet the property")]:
+            ck.failing_input(key, "%s (transport %s, %d step(s))" % (what, s["kind"], len(s["steps"])), pl)
     xdis = [i for i in resx["x_agrees"] if i not in spec_bad]
+    # sessions showing a known finding must still be the model's behaviour
+    xdis += [i for i in resx["x_agrees"] if i in spec_bad and sessions[i]["cat"] in ("error-reply-sets-cookie", "colon-in-username")]
     if xdis:
-        disagree["sessions"] = [dict(session_payload(sessions[i]), observed=[describe_obs(o) for o in xobs[i]])
+        disagree["sessions"] = [dict(session_payload(sessions[i]), category=sessions[i]["cat"],
+                                     observed=[describe_obs(o) for o in xobs[i]])
                                 for i in xdis[:3]]
 
     lap("sessions")
-    # ---- 3. debatable behaviours: model agreement only --------------------------
-    qsess, qcat = [], []
-    for cat in QUIRKS:
-        for _ in range(40 if thorough else 12):
-            qsess.append(gen_quirk(rng, cat, len(clients) or 1))
-            qcat.append(cat)
-    if not clients:
-        for s in qsess:
-            for st in s["steps"]:
-                st["via"] = None
-    qx, qobs = [], []
-    for s in qsess:
-        obs = run_session(server, s, clients)
-        qobs.append(obs)
-        qx.append(c_xcase(s, obs, clients, blobs))
-        for st in s["steps"]:
-            ck.seen(("q", s["kind"], s["user"], s["pw"], tuple(st["hdrs"]), st["msg"], st["body"], st["status"]))
-            ck.count("debatable-" + qcat[len(qx) - 1])
-    resq2 = ck.run_cases("quirk", PRE, "xcase", qx, ["x_agrees", "x_spec_ok"], shard=60)
-    if resq2["x_agrees"]:
-        disagree["debatable-sessions"] = [dict(session_payload(qsess[i]), category=qcat[i],
-                                               observed=[describe_obs(o) for o in qobs[i]])
-                                          for i in resq2["x_agrees"][:3]]
-    for i in resq2["x_spec_ok"]:
-        key = QUIRKS[qcat[i]]
-        if key is None:
-            continue
-        d = debatable.setdefault(key, {"count": 0, "example": session_payload(qsess[i])})
-        d["count"] += 1
-        if key in ck.known:
-            # reported only when the maintainers have listed the class as a known finding
-            ck.failing_input(key, "debatable behaviour %s" % qcat[i], session_payload(qsess[i]))
-    ck.extra["debatable_behaviours_observed"] = {k: v["count"] for k, v in debatable.items()}
-
-    lap("debatable")
     run_small_families(ck, server, clients, blobs, disagree)
     lap("outcomes-urls-timeouts")
     ck.extra["phase_seconds"] = phases
